@@ -482,6 +482,13 @@ def explore(ctx: Ctx):
             for qtg in tg3[:: (1 if thorough else 5)]:
                 for g in (0.0, 0.5, 1.0):
                     dqn.append(dict(S=2, A=3, rows=[row], Qon=qon, Qtg=qtg, gamma=g))
+    # a target (and online) table that marks an action as invalid with -inf: the greedy action's value is finite and so must the target be
+    NEG = float("-inf")
+    for row in rows_alpha(2, 3, [-1.0, 2.0]):
+        for g in (0.5, 1.0):
+            if (row[0], row[1]) not in ((0, 2), (1, 0)):  # the action actually taken has a finite online value
+                dqn.append(dict(S=2, A=3, rows=[row], Qon=[[1.0, 4.0, NEG], [NEG, 2.0, 1.0]], Qtg=[[10.0, 40.0, NEG], [NEG, 20.0, 10.0]], gamma=g))
+            dqn.append(dict(S=2, A=3, rows=[row], Qon=[[1.0, 4.0, 2.0], [4.0, 2.0, 1.0]], Qtg=[[NEG, 40.0, NEG], [20.0, NEG, NEG]], gamma=g))
     # B=2: S=2, A=2
     on2, tg2 = tables(2, 2, [1.0, 2.0]), tables(2, 2, [10.0, 20.0])
     ra = rows_alpha(2, 2, [-1.0, 2.0])
